@@ -16,7 +16,8 @@ from ref import wire
 
 PROPERTY = 'C18'
 META = {
-    'bounds': 'plaintext streams of 12 bytes per direction (thorough 32; one 4096-byte single write with unsegmented reads) with '
+    'bounds': 'one instance where one underlying read() may raise '
+              'socket.timeout (symbolic) and the caller retries; ' 'plaintext streams of 12 bytes per direction (thorough 32; one 4096-byte single write with unsegmented reads) with '
               'symbolic content; the partition of the sent stream into '
               'send() calls is enumerated (all compositions of 12 into <= 3 '
               'parts quick, <= 4 thorough), the partition of the received '
@@ -104,7 +105,7 @@ def _compositions(n, maxparts):
 
 
 def channel(ctx, n=12, sends=None, read_sizes=None, sentinel=False,
-            whole=False):
+            whole=False, timeouts=0):
     """both wrappers over one login's cipher: bytes on the wire are the
     keystream encryption of the plaintext as ONE continuous stream, received
     bytes decrypt likewise, independently per direction, for any split"""
@@ -160,8 +161,21 @@ def channel(ctx, n=12, sends=None, read_sizes=None, sentinel=False,
             bytes(in_plain))
     # ---- receiving through the file-object wrapper: symbolic segmentation
     stream = netenv.Stream(in_cipher if sym else bytes(in_cipher),
-                           whole=whole)
-    rfile = enc.EncryptedFileObjectWrapper(stream, decryptor)
+                           whole=whole, timeouts=timeouts)
+    rfile0 = enc.EncryptedFileObjectWrapper(stream, decryptor)
+
+    class Retrying(object):
+        # the caller of read(): a timeout is not an end of stream, it asks
+        # again (nothing may be lost by that)
+        def read(self, want):
+            import socket as _socket
+            for _ in range(timeouts + 1):
+                try:
+                    return rfile0.read(want)
+                except _socket.timeout:
+                    continue
+            return rfile0.read(want)
+    rfile = Retrying() if timeouts else rfile0
     # what was read is accumulated as a rope: adjacent slices of the
     # plaintext merge symbolically, so the lengths of the individual reads
     # stay symbolic (no fork per possible length)
@@ -369,6 +383,13 @@ def instances(tier, seed):
                             'channel', {'n': n, 'sends': sends,
                                         'read_sizes': rs}, W=64,
                             budget_s=900, witness_every=2))
+    # the underlying read may time out between two partial reads
+    out.append(Instance('channel:8:timeout', 'channel',
+                        {'n': 8, 'sends': [8], 'read_sizes': [8, 3],
+                         'timeouts': 1}, W=64, budget_s=900,
+                        witness_every=2,
+                        note='E-stream: one read() may raise '
+                             'socket.timeout, the caller retries'))
     if tier == 'thorough':
         out.append(Instance('channel:32', 'channel',
                             {'n': 32, 'sends': [1, 15, 16],
